@@ -4,6 +4,8 @@ import (
 	"encoding/binary"
 	"fmt"
 	"reflect"
+	"strings"
+	"time"
 
 	"github.com/tormoder/fit"
 )
@@ -109,6 +111,7 @@ func runC05(c *Ctx) {
 		"values on the wire are compared with the projection of the File taken before Encode (arrays up to invalid padding and the profile length, strings up to the profile length - 1, local times by wall clock); no component expansion is applied on this path",
 		"post-state: File.Header.DataSize, File.Header.CRC (14-byte headers) and File.CRC after Encode equal the values parsed from the output",
 	}
+	encoderModel(c, p, sch)
 	id := 0
 	calls, _ := encodeEvents(c, p, sch, &id, c.pick(6, 40), c.thorough(), true)
 	var ok []*Call
@@ -130,4 +133,29 @@ func runC05(c *Ctx) {
 	c.Cov["rule"] = "Files over the 17 file types built by reflection through the public constructors: random field subsets at three densities (and, thorough, every hosted message type with every field alone), boundary and random in-domain values, both byte orders, headers with and without CRC; each Encode output parsed by FitRef and compared with the File"
 	c.sample(map[string]interface{}{"kind": "encode call", "note": ok[0].Note, "bytes": ok[0].Input[:min(100, len(ok[0].Input))], "post": ok[0].Post})
 	c.finish()
+}
+
+// encoderModel: EncoderImpl (transcription of writer.go) against the Contract
+// on all small activity files: FitRef parses the model's output back to the
+// File, and Encode is a function of the File; with the pre-fix map-order
+// definition the determinism claim must fail (non-vacuity).
+func encoderModel(c *Ctx, p *Profile, sch *Schema) {
+	files := map[string][]byte{"profile.json": p.json(), "schema.json": sch.json()}
+	for _, v := range [][4]string{{"2", "FALSE", "TRUE", "TRUE"}, {"1", "TRUE", "TRUE", "FALSE"}} {
+		cfg := fmt.Sprintf("CONSTANTS\n MaxRecords = %s\n PreFixMapOrder = %s\n ExpectRoundTrip = %s\n ExpectDeterministic = %s\nINIT Init\nNEXT Next\n", v[0], v[1], v[2], v[3])
+		r := c.runTLC(TLCRun{Module: "MC_EncoderImpl", Cfg: cfg, Workers: 1, HeapGB: 6, Files: files, Timeout: 20 * time.Minute})
+		if r.Exit != 0 {
+			if strings.Contains(r.Out, "is false") {
+				if v[1] == "FALSE" {
+					c.report("encoder-model", "TLC: the transcription of writer.go (EncoderImpl) does not round-trip through the reference decoder, or is not deterministic, for some small File:\n"+c.tlcTail(r), nil)
+				} else {
+					c.die("EncoderImpl with the pre-fix map-order definition is still deterministic: the model is vacuous\n%s", c.tlcTail(r))
+				}
+				continue
+			}
+			c.die("TLC MC_EncoderImpl exit %d\n%s", r.Exit, c.tlcTail(r))
+		}
+		c.account(r)
+	}
+	c.Cov["encoder_model_files"] = 1333
 }
